@@ -1,5 +1,11 @@
 """R-CFG: configuration carriers agree (C20) and CLI overrides are applied last (C15)."""
 from engine import Report
+
+
+def _view(prog):
+    from inline import crate_view, KNOWN_STYLUA
+    return crate_view(prog, "stylua", KNOWN_STYLUA)
+
 from facts import *
 
 CONFIG_ENUMS = ["LuaVersion", "LineEndings", "IndentType", "QuoteStyle", "CallParenType",
@@ -57,6 +63,7 @@ def rule_convert(ctx, prop):
     rep = Report(prop, "R-CFG(a)", "flag enums <-> config enums: conversions are total and name preserving in both "
                                    "directions; variant sets equal; flag value names equal config value names")
     for cfg, prog in ctx.programs.items():
+        prog = _view(prog)
         n = 0
         for f in prog.fns("stylua"):
             if f.impl_trait != "std::convert::From" or not f.path.endswith("::from"):
@@ -180,6 +187,7 @@ def rule_overrides(ctx, prop):
                                    "the same name; every Config field (except the deprecated no_call_parentheses) has "
                                    "such a write")
     for cfg, prog in ctx.programs.items():
+        prog = _view(prog)
         f = prog.fn("stylua", "config::load_overrides")
         fo = prog.adt("opt::FormatOpts", "stylua")
         ca = prog.adt("stylua_lib::Config", "stylua")
@@ -276,6 +284,7 @@ def rule_deny_unknown(ctx, prop):
     rep = Report(prop, "R-CFG(c)", "derived Deserialize of Config and SortRequiresConfig rejects unknown keys and knows "
                                    "exactly the struct's field names")
     for cfg, prog in ctx.programs.items():
+        prog = _view(prog)
         for st in ("Config", "SortRequiresConfig"):
             a = prog.adt(st, "stylua_lib")
             fv = [f for f in prog.fns("stylua_lib")
@@ -376,12 +385,15 @@ def rule_editorconfig(ctx, prop):
     rep = Report(prop, "R-CFG(d)", ".editorconfig mapping: each property value writes the Config field/value of the "
                                    "documented option; keys and value spellings as documented")
     for cfg, prog in ctx.programs.items():
+        prog = _view(prog)
         f = prog.fn("stylua_lib", "editorconfig::load")
         if f is None and cfg == "nodefault":
             rep.note("@nodefault: editorconfig feature not compiled in (no mapping to check)")
             continue
         if not rep.anchor(f is not None, "editorconfig::load", cfg):
             continue
+        from inline import inlined, small_helper
+        f = inlined(prog, f, small_helper(prog, keep=r"^editorconfig::(parse|properties_of)$|^<", max_blocks=60), depth=1)
         cl = f.names.get("config", {}).get("l")
         writes = field_writes(f, cl)
         seen = set()
@@ -405,6 +417,13 @@ def rule_editorconfig(ctx, prop):
                         ok = len(ws) == 1 and ws[0][1] == "indent_width" and \
                             any(callee(t).endswith("Properties::get") and "TabWidth" in (t.get("fn") or "")
                                 for b2, t in f.calls() if f.dominates(tb, b2))
+                        if not ok:
+                            # through a helper: TabWidth is read under this arm and the single indent_width write derives from it
+                            iw = [(b, o) for b, fl, o, s_ in writes if fl == "indent_width" and o is not None]
+                            ok = len(iw) == 1 and any(callee(t).endswith("Properties::get") and "TabWidth" in (t.get("fn") or "")
+                                                      and f.dominates(tb, b2) for b2, t in f.calls()) and \
+                                any("TabWidth" in (f.blocks[r[2]]["term"].get("fn") or "")
+                                    for r in provenance(f, iw[0][1], through=None) if r[0] == "call")
                         seen.add((en, v))
                         rep.inst(f"{f.key} {en}::{v} -> indent_width=tab_width", None, cfg, ok=ok)
                         if not ok:
@@ -419,12 +438,59 @@ def rule_editorconfig(ctx, prop):
                 shared = [vv for vv, bb in alltargets.items() if bb == tb]
                 region = f.reach_from(tb, avoid=set(alltargets.values()) - {tb})
                 ws = [(b, fl, o) for b, fl, o, s in writes if b in region and f.dominates(tb, b)]
+                flow = []
+                if not ws:
+                    # `config.field = match value { V => X, .. }`: the arm assigns a temporary that is written after the match
+                    for wb, wfl, wo, wst in writes:
+                        if wo is None or is_const(wo) or op_place(wo).get("p"):
+                            continue
+                        wdefs = f.defs().get(op_place(wo)["l"], [])
+                        if len(wdefs) == 1 and wdefs[0][1] != "term" and wdefs[0][2]["rv"]["k"] == "agg" and \
+                                "adt" in wdefs[0][2]["rv"] and wdefs[0][2]["rv"]["ops"] and not f.dominates(tb, wdefs[0][0]):
+                            # a struct built after the match from temporaries the arm assigned
+                            rvs = wdefs[0][2]["rv"]
+                            vals_ = []
+                            from_arm = False
+                            for x in rvs["ops"]:
+                                if is_const(x) or op_place(x).get("p"):
+                                    vals_.append(value_desc(f, x))
+                                    continue
+                                xd = [d for d in f.defs().get(op_place(x)["l"], []) if d[1] != "term" and d[0] in region
+                                      and f.dominates(tb, d[0]) and d[2]["rv"]["k"] == "use"]
+                                if len(xd) == 1:
+                                    from_arm = True
+                                vals_.append(value_desc(f, xd[0][2]["rv"]["o"]) if len(xd) == 1 else ("unknown",))
+                            if from_arm:
+                                flow.append((wfl, ("struct", rvs["adt"].split("::")[-1], rvs["variant"], tuple(vals_))))
+                            continue
+                        for db_, dsi_, ds_ in wdefs:
+                            if dsi_ == "term" or db_ not in region or not f.dominates(tb, db_):
+                                continue
+                            rv_ = ds_["rv"]
+                            if rv_["k"] == "use":
+                                d_ = value_desc(f, rv_["o"])
+                                # `Auto => config.quote_style`: the field keeps its value
+                                if not is_const(rv_["o"]) and op_place(rv_["o"])["l"] == cl and \
+                                        ".".join(x[1] for x in proj_fields(op_place(rv_["o"]))) == wfl:
+                                    continue
+                            elif rv_["k"] == "agg" and "adt" in rv_:
+                                d_ = ("variant", rv_["adt"].split("::")[-1], rv_["variant"]) if not rv_["ops"] else \
+                                    ("struct", rv_["adt"].split("::")[-1], rv_["variant"], tuple(value_desc(f, x) for x in rv_["ops"]))
+                            else:
+                                d_ = ("unknown",)
+                            flow.append((wfl, d_))
                 if wfield is None:
-                    ok = not ws
-                    got = [(fl,) for b, fl, o in ws]
+                    ok = not ws and not flow
+                    got = [(fl,) for b, fl, o in ws] + [(fl,) for fl, d_ in flow]
                 else:
-                    got = [(fl, value_desc(f, o) if o is not None else ("agg",)) for b, fl, o in ws]
+                    got = [(fl, value_desc(f, o) if o is not None else ("agg",)) for b, fl, o in ws] + flow
                     ok = got == [(wfield, wval)]
+                if not ok and en == "IndentSize" and v == "Value":
+                    # the width may travel through an Option-returning helper: the only write of indent_width takes a value
+                    # that derives from the IndentSize property
+                    iw = [(b, o) for b, fl, o, s_ in writes if fl == "indent_width" and o is not None]
+                    ok = len(iw) == 1 and any("IndentSize" in (f.blocks[r[2]]["term"].get("fn") or "")
+                                              for r in provenance(f, iw[0][1], through=None) if r[0] == "call")
                 rep.inst(f"{f.key} {en}::{v} -> {wfield}={wval}", {"property": f"{en}::{v}", "writes": str(got)},
                          cfg, ok=ok)
                 if not ok:
@@ -584,6 +650,7 @@ def rule_override_last(ctx, prop):
                           r"std::env::current_dir|std::collections::HashMap::<K, V>::new)$")
     OK_FIELDS = {"forced_configuration", "default_configuration", "config_cache", "opt", "current_directory"}
     for cfg, prog in ctx.programs.items():
+        prog = _view(prog)
         fns = [f for f in prog.fns("stylua") if f.path.startswith("config::") and
                ("stylua_lib::Config" in f.locals[0]) and f.kind != "Closure"]
         rep.floor("resolver functions returning a Config", len(fns), 7, cfg)
@@ -672,6 +739,7 @@ def rule_search(ctx, prop):
     rep = Report(prop, "R-CFG(f)", "search wiring: forced configuration first; file names stylua.toml then .stylua.toml; "
                                    "--no-editorconfig guards the editorconfig call")
     for cfg, prog in ctx.programs.items():
+        prog = _view(prog)
         import extract
         # CONFIG_FILE_NAME constant
         st = prog.fn("stylua", "config::CONFIG_FILE_NAME")
@@ -746,6 +814,7 @@ def rule_walkup(ctx, prop):
                                    "looked up before its parent; the walk stops at the root / file-system root; the XDG/HOME "
                                    "fallback only with --search-parent-directories; stdin uses --stdin-filepath or the cwd")
     for cfg, prog in ctx.programs.items():
+        prog = _view(prog)
         from paths import Enumerator, TooManyPaths, access_path, path_key
         g = prog.fn("stylua", "config::ConfigResolver::<'_>::get_configuration_search_root")
         if rep.anchor(g is not None, "get_configuration_search_root", cfg):
